@@ -85,3 +85,15 @@ Proof.
         match goal with Hh : held_by_any _ _ = false |- _ => vm_compute in Hh; discriminate Hh end.
       * cbn in E1. inversion E1 as [[Ep Epre]]. destruct pre; discriminate Epre.
 Qed.
+
+(* the per-function facts of the regenerated table contain what the atomicity argument needs *)
+Lemma holders_present_sound : forall hs, holders_present hs = true -> forall r, In r required_holders -> In r hs.
+Proof.
+  intros hs H r Hr. unfold holders_present in H. rewrite forallb_forall in H. specialize (H r Hr).
+  apply existsb_exists in H. destruct H as (x & Hx & E). destruct r as [[f1 h1] t1], x as [[f2 h2] t2].
+  cbn [holder_eqb] in E. apply andb_true_iff in E. destruct E as [E E3]. apply andb_true_iff in E. destruct E as [E1 E2].
+  apply String.eqb_eq in E1, E2, E3. subst. exact Hx.
+Qed.
+
+Lemma lock_holders_required : holders_present lock_holders = true.
+Proof. vm_compute. reflexivity. Qed.
